@@ -157,6 +157,8 @@ const RAW_NAMES: &[&str] = &[
     "A", "B", "C", "robin", "bird", "x1", "42", "0", "7", "a-b", "go-to", "a_b", "x--y", "αβγ", "鸟", "知更",
     "飞-行", "😀", "🚀x", "ｗｉｄｅ", "Ünï", "n0-1_z", "t", "e5", "inf", "NaN", "1e5", "SELF", "good", "left",
     "Z9", "q", "ß", "ー", "動物", "k-9", "a__", "x_", "0x1F", "日本", "한글", "Ωmega", "i", "l", "O0", "yz-1-2",
+    // non-ASCII numerics (Nd / No / Nl): identifier characters of every format, NUMBER in the README grammar
+    "x２", "٣", "v²", "①", "½", "Ⅷ", "格点-４-５", "９９",
 ];
 
 /// Names that are safe in all three formats
